@@ -94,3 +94,33 @@ func TestC16KeyConditionShape(t *testing.T) {
 		}
 	}
 }
+
+// KF-C12-sort-keys-by-text: number and binary sort keys are ordered by the text of their rendering.
+func TestC12SortKeysByText(t *testing.T) {
+	ctx := context.Background()
+	c := v2.NewClient()
+	tbl := "tbl"
+	_, err := c.CreateTable(ctx, &dynamodb.CreateTableInput{TableName: &tbl, BillingMode: v2types.BillingModePayPerRequest,
+		AttributeDefinitions: []v2types.AttributeDefinition{{AttributeName: aws.String("h"), AttributeType: v2types.ScalarAttributeTypeS}, {AttributeName: aws.String("r"), AttributeType: v2types.ScalarAttributeTypeN}},
+		KeySchema:            []v2types.KeySchemaElement{{AttributeName: aws.String("h"), KeyType: v2types.KeyTypeHash}, {AttributeName: aws.String("r"), KeyType: v2types.KeyTypeRange}}})
+	if err != nil {
+		t.Fatal(err)
+	}
+	for _, r := range []string{"2", "10", "3"} {
+		if _, err := c.PutItem(ctx, &dynamodb.PutItemInput{TableName: &tbl, Item: map[string]v2types.AttributeValue{"h": &v2types.AttributeValueMemberS{Value: "a"}, "r": &v2types.AttributeValueMemberN{Value: r}}}); err != nil {
+			t.Fatal(err)
+		}
+	}
+	kc := "h = :h"
+	o, err := c.Query(ctx, &dynamodb.QueryInput{TableName: &tbl, KeyConditionExpression: &kc, ExpressionAttributeValues: map[string]v2types.AttributeValue{":h": &v2types.AttributeValueMemberS{Value: "a"}}})
+	if err != nil {
+		t.Fatal(err)
+	}
+	got := []string{}
+	for _, it := range o.Items {
+		got = append(got, it["r"].(*v2types.AttributeValueMemberN).Value)
+	}
+	if len(got) != 3 || got[0] != "2" || got[1] != "3" || got[2] != "10" {
+		t.Errorf("sort keys 2, 3, 10 came back as %v", got)
+	}
+}
